@@ -297,6 +297,7 @@ import weak 'b.proto';
 option java_package = "com." "ver" 'if';
 option (x.y.opt).f.(g.h) = -1.5e3;
 option (o2) = { a: 1 b: -2, c: [1, 2]; d { e: "s" "t" } f < g: inf > [x.y/z.W] { v: 0x1F } };
+option (lits) = { s: "q\"\\\'\x41\101\n\u00e9" '\U0001F600' "é€😀" f1: 1e10 f2: 0777 f3: 1.5E+3 f4: .5e-3 f5: 1. f6: -inf f7: 0X1f f8: 18446744073709551615 f9: 1E-2 };
 message M {
   optional .x.y.M m = 1 [default = -0x7f, json_name = 'j', (a.b) = { k: .5 }];
   repeated group G = 2 [deprecated = true] { required bytes b = 1; }
@@ -316,9 +317,22 @@ type skelOut struct {
 	ID       string     `json:"id"`
 	Syntax   string     `json:"syntax"`
 	Features []string   `json:"features"`
-	Toks     [][2]string `json:"toks"`
-	Gaps     [][]string `json:"gaps"`
-	Text     string     `json:"text"`
+	Toks     [][3]string `json:"toks"` // text (non-ASCII as <U+XXXX>), class, UTF-8 byte length
+	Gaps     [][]string  `json:"gaps"`
+	Text     string      `json:"text"`
+}
+
+// abstractText writes non-ASCII characters as <U+XXXX> (TLA+ strings cannot hold them).
+func abstractText(s string) string {
+	var sb strings.Builder
+	for _, r := range s {
+		if r < 0x80 {
+			sb.WriteRune(r)
+		} else {
+			fmt.Fprintf(&sb, "<U+%04X>", r)
+		}
+	}
+	return sb.String()
 }
 
 func wsCodes(ws string) ([]string, error) {
@@ -352,7 +366,7 @@ func skeletonOf(id, syntax string, features []string, text string) (*skelOut, er
 		case "c":
 			return nil, fmt.Errorf("skeleton text has a comment")
 		default:
-			sk.Toks = append(sk.Toks, [2]string{p.Text, p.Kind})
+			sk.Toks = append(sk.Toks, [3]string{abstractText(p.Text), p.Kind, strconv.Itoa(len(p.Text))})
 			sk.Gaps = append(sk.Gaps, []string{})
 		}
 	}
